@@ -129,6 +129,10 @@ SAN_PRESETS = {"semver_str": False, "semver": False, "dotted": False, "pep440_lo
 FMT_OK = ["%Y-%m-%d", "%Y%m%d", "%H:%M:%S", "%Y/%m/%d %H-%M-%S", "%j", "%y.%m", "%d.%m.%Y %H%M", "%Y", "%%%Y"]
 
 
+# (literal as written in the template, the number of characters it denotes or None when it denotes no length)
+ODD_LENGTHS = [("-1", None), ("2.0", 2), ("2.5", 2), ("'3'", 3), ("true", None), ("1e0", 1), ("0.0", 0), ("-0.5", None), ("'x'", None), ("[2]", None), ("18446744073709551616", 2 ** 64), ("-9223372036854775808", None)]
+
+
 def gen_calls(rng, v):
     """list of (template expr, judge(text) -> reason|None, key for hash table or None)"""
     calls = []
@@ -289,6 +293,28 @@ def work(bins, seed, n, tz):
                     hashes[hk] = t
             if len(samples) < 2:
                 samples.append(dict(template=t2[:300], output=r2.get("ok", "")[:200]))
+        # "at most `length` characters" when the length is not written as a plain non-negative integer: a refusal is fine, a result has to respect
+        # the number the argument denotes - silently falling back to the default length is neither
+        if rng.random() < 0.35:
+            fn = rng.choice(["hash", "hash_int", "prefix", "sanitize"])
+            lit, denotes = rng.choice(ODD_LENGTHS)
+            src = rng.choice(["bumped_branch", "custom.s1", "bumped_commit_hash"])
+            expr = "%s(value=%s, %s=%s%s)" % (fn, src, "max_length" if fn == "sanitize" else "length", lit, ", separator='-'" if fn == "sanitize" else "")
+            r3 = pr.call(dict(op="template", template="%s{{ %s }}%s" % (L, expr, R), ron=text))
+            st["odd_argument_calls"] = st.get("odd_argument_calls", 0) + 1
+            case3 = dict(kind="calls", ron=text, template="%s{{ %s }}%s" % (L, expr, R), tz=tz)
+            if "panic" in r3:
+                bad.append(("panic@" + r3.get("at", "?").rsplit(":", 1)[0], "function call panicked: %s [%s]" % (r3["panic"], expr), case3))
+            elif "ok" in r3:
+                got = split_fields(r3["ok"], 1)
+                if got is not None:
+                    st["odd_argument_accepted"] = st.get("odd_argument_accepted", 0) + 1
+                    if denotes is None:
+                        bad.append(("function-ignores-argument", "%s was accepted and returned %r: the argument is no length and was silently ignored" % (expr, got[0]), case3))
+                    elif len(got[0]) > denotes:
+                        bad.append(("function-ignores-argument", "%s returned %d characters %r" % (expr, len(got[0]), got[0]), case3))
+            else:
+                st["odd_argument_refused"] = st.get("odd_argument_refused", 0) + 1
     return dict(bad=bad, st=st, hashes=[(list(k), h) for k, h in hashes.items()], distinct=len(distinct), samples=samples)
 
 
